@@ -122,3 +122,333 @@ c = contract(CLIENT, "Client.download", props=["C09"], name="Client.download/pla
 c.setup = setup_download_placement
 c.raises = {}
 c.ensures(upload_placement_post, "entry-is-placed-at-destination-joined-with-its-path-relative-to-the-source")
+
+
+# ------------------------------------------------------------------------------------ AsyncLister.__anext__ (recursive listing)
+from pyvc import strmodel  # noqa: E402
+from pyvc.models_lib import DequeModel  # noqa: E402
+from pyvc.session import Reader, Writer  # noqa: E402
+from pyvc.unit import LoopSpec  # noqa: E402
+from pyvc.values import Model  # noqa: E402
+
+COMMON = "aioftp.common"
+
+
+class ListStream(Model):
+    """the data stream of one directory listing: readline() yields a line or b"" at the end; finish() completes it"""
+
+    model_name = "liststream"
+
+    def __init__(self, tag):
+        super().__init__()
+        self.tag = tag
+        self.finished = False
+
+    def getattr(self, it, name):
+        if name == "readline":
+
+            def rl(i, a, k):
+                def run():
+                    i.suspend("readline")
+                    if i.ctx.choose(2, "listing-line-or-eof") == 1:
+                        i.ctx.event("eof", self)
+                        return b""
+                    line = fresh("bytes", "listing_line")
+                    i.ctx.assume(z3.Length(line.t) > 0)
+                    i.ctx.event("line", self, line)
+                    return line
+
+                return Coro(run, "readline")
+
+            return Builtin("liststream.readline", rl)
+        if name == "finish":
+
+            def fin(i, a, k):
+                def run():
+                    self.finished = True
+                    i.ctx.event("finish", self)
+
+                return Coro(run, "finish")
+
+            return Builtin("liststream.finish", fin)
+        raise Unsupported("stream." + name)
+
+
+def setup_lister(u):
+    it = u.it
+    cl = Obj(u.cls(CLIENT, "Client"), tag="client")
+    cl.fields["encoding"] = "utf-8"
+    recursive = u.choose(2, "recursive") == 1
+    root = mk_path(u, "listed", "/")
+    streams = []
+
+    # Client.get_stream (the data connection for MLSD/LIST) and the line parser are used through summaries
+    def get_stream(i, a, k):
+        def run():
+            i.suspend("get_stream")
+            s = ListStream(f"stream{len(streams)}")
+            streams.append((s, a[1]))
+            i.ctx.event("new-stream", s, a[1])
+            return s
+
+        return Coro(run, "get_stream")
+
+    b = Builtin("Client.get_stream", get_stream)
+    b.is_method = True
+    cl.cls = type(cl.cls)(cl.cls.name, [cl.cls], {"get_stream": b})
+    parsed = []
+
+    def parse_line(i, a, k):
+        c = i.ctx.choose(3, "parsed-entry")  # a proper entry, '.', '..'   (or the documented ValueError)
+        name = [None, ".", ".."][c]
+        if name is None:
+            nm = fresh("str", "entry_name")
+            i.ctx.assume(models_path.clean_part(nm.t))
+            i.ctx.assume(nm.t != z3.StringVal(".."))
+            p = PathVal("posix", "", z3.Unit(nm.t))
+        else:
+            p = PathVal("posix", "", z3.Empty(models_path.SS)) if name == "." else PathVal("posix", "", z3.Unit(z3.StringVal("..")))
+            p.dot = name
+        typ = ["dir", "file"][i.ctx.choose(2, "entry-type")]
+        info = {"type": typ}
+        parsed.append((p, info, a[1] if len(a) > 1 else a[0]))
+        return (p, info)
+
+    for nm in ("parse_mlsx_line", "parse_list_line"):
+        pb = Builtin("Client." + nm, parse_line)
+        pb.is_method = True
+        cl.cls.attrs[nm] = pb
+    lister = it.call(it.getattr_(cl, "list"), [root], {"recursive": recursive})
+    it.call(it.getattr_(lister, "__aiter__"), [], {})
+    # an arbitrary moment of the iteration: some stream is open (or none yet), some directories are queued
+    started = u.choose(2, "already-started") == 1
+    if started:
+        cur = ListStream("current")
+        lister.fields["stream"] = cur
+        lister.fields["path"] = mk_path(u, "curdir", root.anchor)
+        pb = cl.cls.attrs["parse_mlsx_line"]
+        lister.fields["parse_line"] = it.getattr_(cl, "parse_mlsx_line")
+        q = lister.fields["directories"]
+        nq = u.choose(2, "queued-directories")
+        for j in range(nq):
+            q.items.append((mk_path(u, f"queued{j}", root.anchor), {"type": "dir"}))
+    f = it.getattr_(lister, "__anext__")
+    return f, [], {}, {"lister": lister, "recursive": recursive, "parsed": parsed, "streams": streams, "root": root, "queue0": list(lister.fields["directories"].items)}
+
+
+c = contract(CLIENT, "Client.list.<locals>.AsyncLister.__anext__", props=["C09", "C19"], name="Client.list.<locals>.AsyncLister.__anext__")
+c.setup = setup_lister
+c.raises_("StopAsyncIteration", lambda S: lister_stop_ok(S), "stops-only-when-the-last-queued-directory-is-exhausted")
+c.raises_("CancelledError")
+c.raises_("ValueError")
+c.opts = {"feas_timeout_ms": 300, "no_covers": True}
+c.env_hooks = {"unroll_limit": 2, "unroll_exceed": "end"}
+c.assumptions.append("B-unroll: the two while loops of __anext__ are unrolled twice (up to 2 consecutive '.'/'..' entries and up to 2 consecutive exhausted directories before an entry is returned) — bounded in that dimension, symbolic in names, paths and queue contents")
+
+
+def lister_stop_ok(S):
+    lister = S.vars["lister"]
+    return len(lister.fields["directories"].items) == 0 and lister.fields["stream"].finished
+
+
+def lister_post(S):
+    """the item returned is (directory being listed / name, info) of the line just parsed; '.' and '..' are never
+    returned or queued; a directory entry is queued for later listing iff recursive"""
+    it = S.it
+    lister, parsed = S.vars["lister"], S.vars["parsed"]
+    if not parsed:
+        return False
+    p, info, _line = parsed[-1]
+    if getattr(p, "dot", None):
+        return False  # a dot entry must be skipped, never returned
+    path, rinfo = S.result
+    cur = lister.fields["path"]
+    ok_path = z3.And(path.anchor_t() == cur.anchor_t(), path.parts == z3.Concat(cur.parts, p.parts))
+    q = lister.fields["directories"].items
+    newly = [x for x in q if x not in S.vars["queue0"]]
+    want_q = info["type"] == "dir" and S.vars["recursive"]
+    ok_q = (len(newly) == 1 and newly[0][0] is path and newly[0][1] is info) if want_q else (len(newly) == 0)
+    # every dot entry seen on the way was skipped: none of them is in the queue
+    dots_q = any(getattr(x[0], "dot", None) for x in q)
+    return z3.And(ok_path, z3.BoolVal(bool(ok_q and rinfo is info and not dots_q)))
+
+
+c.ensures(lister_post, "yields-directory-joined-with-the-entry-name-skips-dots-queues-directories-iff-recursive")
+
+
+# ------------------------------------------------------------------------------------ make_directory / remove
+def _client_with(u, overrides):
+    it = u.it
+    cl = Obj(u.cls(CLIENT, "Client"), tag="client")
+    cl.fields["encoding"] = "utf-8"
+    attrs = {}
+    for name, fn in overrides.items():
+        b = Builtin("Client." + name, fn)
+        b.is_method = True
+        attrs[name] = b
+    cl.cls = type(cl.cls)(cl.cls.name, [cl.cls], attrs)
+    return cl
+
+
+def setup_make_directory(u):
+    it = u.it
+    depth = 1 + u.choose(3, "path-depth")
+    names = [fresh("str", f"n{i}") for i in range(depth)]
+    for n in names:
+        u.assume(models_path.clean_part(n.t))
+        u.assume(n.t != z3.StringVal(".."))
+    absolute = u.choose(2, "absolute") == 1
+    path = PathVal("posix", "/" if absolute else "", models_path.seq_of(names), abs_known=absolute)
+    parents = u.choose(2, "parents") == 0
+    asked, sent = [], []
+
+    def exists(i, a, k):
+        def run():
+            i.suspend("exists")
+            r = i.ctx.choose(2, "exists") == 0
+            asked.append((a[1], r))
+            return r
+
+        return Coro(run, "exists")
+
+    def command(i, a, k):
+        def run():
+            i.suspend("command")
+            sent.append((a[1], a[2] if len(a) > 2 else None))
+            return ("257", ["ok"])
+
+        return Coro(run, "command")
+
+    cl = _client_with(u, {"exists": exists, "command": command})
+    f = it.getattr_(cl, "make_directory")
+    return f, [path], {"parents": parents}, {"path": path, "names": names, "absolute": absolute, "parents": parents, "asked": asked, "sent": sent, "depth": depth}
+
+
+c = contract(CLIENT, "Client.make_directory", props=["C09"])
+c.setup = setup_make_directory
+c.raises_("CancelledError")
+c.assumptions.append("B-depth: target paths of 1..3 components (names symbolic); the ancestor loop is unrolled")
+
+
+def make_directory_post(S):
+    """MKD is sent exactly for the innermost run of missing ancestors (all of them with parents=True, only the target
+    otherwise), outermost first, each expecting 257"""
+    it = S.it
+    names, depth, asked, sent = S.vars["names"], S.vars["depth"], S.vars["asked"], S.vars["sent"]
+    # what the model prescribes, from the answers the server gave
+    missing = 0
+    for (p, r) in asked:
+        if r:
+            break
+        missing += 1
+        if not S.vars["parents"]:
+            break
+    want_depths = list(range(depth - missing + 1, depth + 1))  # number of components of each directory to create
+    if len(sent) != len(want_depths):
+        return False
+    conj = []
+    for (cmd, exp), d in zip(sent, want_depths):
+        if exp != "257":
+            return False
+        target = PathVal("posix", "/" if S.vars["absolute"] else "", models_path.seq_of(names[:d]), abs_known=S.vars["absolute"])
+        want = z3.Concat(z3.StringVal("MKD "), term_of(it, strmodel.to_str(it, target)))
+        conj.append(term_of(it, cmd) == want)
+    return z3.And(*conj) if conj else True
+
+
+def term_of(it, v):
+    v = it.unbox(v)
+    return v.t if isinstance(v, SV) else z3.StringVal(v)
+
+
+c.ensures(make_directory_post, "creates-exactly-the-missing-ancestors-outermost-first")
+
+
+def setup_remove(u):
+    it = u.it
+    path = mk_path(u, "victim", "/")
+    u.assume(z3.Length(path.parts) >= 1)
+    log = []
+    kind = ["missing", "file", "dir", "other"][u.choose(4, "what-is-there")]
+    nchildren = u.choose(3, "children") if kind == "dir" else 0
+    children = []
+    for j in range(nchildren):
+        nm = fresh("str", f"child{j}")
+        u.assume(models_path.clean_part(nm.t))
+        ctype = ["file", "dir", "link"][u.choose(3, f"child{j}-type")]
+        children.append((PathVal("posix", "/", z3.Concat(path.parts, z3.Unit(nm.t)), abs_known=True), {"type": ctype}))
+
+    def mk(name, result):
+        def fn(i, a, k):
+            def run():
+                i.suspend(name)
+                log.append((name, a[1] if len(a) > 1 else None))
+                return result(a) if callable(result) else result
+
+            return Coro(run, name)
+
+        return fn
+
+    state = {"depth": 0}
+
+    def remove_rec(i, a, k):
+        def run():
+            i.suspend("remove")
+            log.append(("remove", a[1]))
+
+        return Coro(run, "remove")
+
+    cl = _client_with(
+        u,
+        {
+            "exists": mk("exists", kind != "missing"),
+            "stat": mk("stat", {"type": {"file": "file", "dir": "dir", "other": "link", "missing": "file"}[kind]}),
+            "remove_file": mk("remove_file", None),
+            "remove_directory": mk("remove_directory", None),
+        },
+    )
+
+    def list_(i, a, k):
+        log.append(("list", a[1]))
+        return Coro(lambda: list(children), "list")
+
+    lb = Builtin("Client.list", list_)
+    lb.is_method = True
+    cl.cls.attrs["list"] = lb
+    real_remove = it.getattr_(cl, "remove")
+    # recursive calls go through the summary, the outer call runs the real body
+    calls = {"n": 0}
+    orig = cl.cls.lookup("remove")[0]
+
+    def remove_dispatch(i, a, k):
+        calls["n"] += 1
+        if calls["n"] == 1:
+            return i.call(orig, a, k)
+        return remove_rec(i, a, k)
+
+    rb = Builtin("Client.remove", remove_dispatch)
+    rb.is_method = True
+    cl.cls.attrs["remove"] = rb
+    return it.getattr_(cl, "remove"), [path], {}, {"path": path, "kind": kind, "children": children, "log": log}
+
+
+c = contract(CLIENT, "Client.remove", props=["C09"])
+c.setup = setup_remove
+c.raises_("CancelledError")
+c.assumptions.append("B-fanout: directories with 0..2 listed children; the recursive call is used through its own contract (a summary that records the call)")
+
+
+def remove_post(S):
+    """missing: nothing is sent; file: one DELE of the path; directory: remove() of each listed file/dir child (others are
+    left alone), then RMD of the path — nothing outside path and its listed children is named"""
+    log, kind, path, children = S.vars["log"], S.vars["kind"], S.vars["path"], S.vars["children"]
+    acts = [(n, p) for n, p in log if n in ("remove_file", "remove_directory", "remove")]
+    if kind == "missing" or kind == "other":
+        return not acts
+    if kind == "file":
+        return len(acts) == 1 and acts[0][0] == "remove_file" and acts[0][1] is path
+    want = [("remove", ch[0]) for ch in children if ch[1]["type"] in ("dir", "file")] + [("remove_directory", path)]
+    return len(acts) == len(want) and all(a[0] == w[0] and a[1] is w[1] for a, w in zip(acts, want))
+
+
+c.ensures(remove_post, "removes-the-subtree-and-names-nothing-else")
